@@ -8,10 +8,10 @@ Floats are decimal UInt64 bit patterns.  Output, one line per input line:
     <outcome> <field bits> …
 
 `<model>` is either a generated Float twin (EPV.GenF.Registry) or a hand model
-(EPV.Model.Registry).  Run with `lake env lean --run Main.lean`.
+(EPV.Gen.ModelRegistry, generated from the `-- driver:` lines of EPV/Model/*.lean).  Run with `lake env lean --run Main.lean`.
 -/
 import EPV.Gen.Registry
-import EPV.Model.Registry
+import EPV.Gen.ModelRegistry
 
 open EPV.Run
 
@@ -24,7 +24,7 @@ partial def loop (h : IO.FS.Stream) (out : IO.FS.Stream) : IO Unit := do
     match EPV.GenF.eval model (args.map parseFloatBits).toArray with
     | some r => out.putStrLn (showResult r)
     | none =>
-      match EPV.Model.eval model args with
+      match EPV.ModelReg.eval model args with
       | some s => out.putStrLn s
       | none => out.putStrLn "unknown-model"
   | [] => out.putStrLn "bad-op"
